@@ -34,7 +34,7 @@ KEY_COUNT = 'count-exceeds-number-of-evaluations'
 KEY_RANDOM_PAD = 'random-strategy-ignores-feature-padding'
 KEY_NAN = 'fewer-than-count-rewards-rank-above-minus-inf'
 
-FAMILIES = ['interior', 'corner', 'catonly', 'plateau', 'nonfinite', 'peak', 'allnan']
+FAMILIES = ['interior', 'corner', 'catonly', 'plateau', 'nonfinite', 'peak', 'allnan', 'mostlyneginf']
 NEG_NAN = np.array([0xffc00000], dtype=np.uint32).view(np.float32)[0]
 POS_NAN = np.array([0x7fc00000], dtype=np.uint32).view(np.float32)[0]
 TOL = 1e-5
@@ -224,7 +224,11 @@ class Runner(object):
         dist = dist + jnp.sum(kr != params['peak_k'], axis=-1).astype(c.dtype)
       peak = -50.0 * dist
       allnan = nanv
-      return jnp.stack([interior, corner, catonly, plateau, nonfinite, peak, allnan])[params['mode']]
+      # -inf except on a thin region (an acquisition function with a large infeasible region): fewer
+      # than `count` evaluations are finite, many tie at -inf with the never-evaluated placeholders
+      thin = (cr[..., 0] < 0.08) if nc else (kr[..., 0] == 1)
+      mostlyneginf = jnp.where(thin, interior + 1.0, -jnp.inf)
+      return jnp.stack([interior, corner, catonly, plateau, nonfinite, peak, allnan, mostlyneginf])[params['mode']]
 
     def make_score(params):
       def score(x, seed):
@@ -374,9 +378,12 @@ def model_request(runner, out, pf, seeded):
           'priors': priors}, batches, prior_entries
 
 
-def same_up_to_ties(real, model, pool):
-  """Multisets of (features, reward) equal except for the choice among entries tied at the threshold."""
+def same_up_to_ties(real, model, pool, placeholder=None):
+  """Multisets of (features, reward) equal except for the choice among entries tied at the threshold;
+  a never-evaluated placeholder is not an admissible choice where the model keeps an evaluated entry."""
   if sorted(e[2] for e in real) != sorted(e[2] for e in model):
+    return False
+  if placeholder is not None and sum(1 for e in real if e == placeholder) > sum(1 for e in model if e == placeholder):
     return False
   if not model:
     return True
@@ -578,13 +585,14 @@ def judge_jobs(c, ci, runner, jobs, state):
     else:
       state['exact'] += int(exact)
       state['compared'] += 1
-      if not exact and not same_up_to_ties(real, mres, pool):
+      if not exact and not same_up_to_ties(real, mres, pool, placeholder):
         c.tie_break('best results (top-count merge)', case, real[:4], mres[:4])
     # ---------------- property stage on the real result
     all_eval = [e for b in rtrace for e in b]
     n_above = sum(1 for e in all_eval if e[2] > ph)
+    n_at_or_above = sum(1 for e in all_eval if e[2] >= ph)
     ties = len(set(e[2] for e in all_eval)) < len(all_eval)
-    nontrivial = ties or cfgc.count > cfgc.batch or pf is not None or padded or fam in ('nonfinite', 'allnan')
+    nontrivial = ties or cfgc.count > cfgc.batch or pf is not None or padded or fam in ('nonfinite', 'allnan', 'mostlyneginf')
     c.count(0, (ci, fam, case['seed']) if nontrivial else None)
     n_res = out['rewards'].shape[0]
     if out['rewards'].shape != (cfgc.count,) or out['cont'].shape != (cfgc.count, 1, runner.ncp) or out['cat'].shape != (cfgc.count, 1, runner.nkp):
@@ -621,6 +629,10 @@ def judge_jobs(c, ci, runner, jobs, state):
       total_evals = len(all_eval)
       if is_ph and total_evals < cfgc.count:
         key = KEY_COUNT
+      elif is_ph and n_at_or_above >= cfgc.count:
+        # enough evaluated candidates rank at least as high as the placeholder (ties at -inf): the
+        # merge must keep those, not the never-evaluated zero row
+        key = 'placeholder-kept-over-evaluated-candidates'
       elif is_ph and n_above < cfgc.count:
         key = KEY_NAN
       elif real[i][2] <= ph and n_above < cfgc.count and pf is not None and c.flags.get('priorsEnterBest'):
@@ -758,7 +770,7 @@ def run(c):
     return c.finish(level='proof', rule='replay of ' + c.replay_path)
   quick = c.tier == 'quick'
   cfgs = core_configs() + [gen_config(c.rng) for _ in range(1 if quick else 14)]
-  families = ['interior', 'corner', 'catonly', 'plateau', 'nonfinite', 'peak']
+  families = ['interior', 'corner', 'catonly', 'plateau', 'nonfinite', 'peak', 'mostlyneginf']
   n_seeds = 2 if quick else 4
   for ci, cfg in enumerate(cfgs):
     run_config(c, ci, cfg, n_seeds, families, state)
